@@ -346,6 +346,39 @@ func (q *queryChecker) Check(qu Query) {
 		prefix := append(unhx(qu.ID), be64(qu.Batch)...)
 		var want []string
 		expr := true
+		if len(unhx(qu.ID)) != types.ContextIDLen {
+			// not the identifier of any context (e.g. only the transaction hash): there are no "requests of
+			// batch b of that context"; both interfaces must answer nothing (an empty list or an error)
+			q.cls["malformed_context_id"]++
+			var n, ln int
+			var err, lerr error
+			if qu.Kind == "requests_by_ctx" {
+				var res *types.QueryRequestsByReqCtxResponse
+				if res, err = k.RequestsByReqCtx(ctx, &types.QueryRequestsByReqCtxRequest{RequestContextId: unhx(qu.ID), BatchCounter: qu.Batch}); err == nil {
+					n = len(res.Requests)
+				}
+				var lbz []byte
+				if lbz, lerr = q.legacy(types.QueryRequestsByReqCtx, types.QueryRequestsByReqCtxParams{RequestContextID: unhx(qu.ID), BatchCounter: qu.Batch}); lerr == nil {
+					ln = strings.Count(string(lbz), `"id"`)
+				}
+			} else {
+				var res *types.QueryResponsesResponse
+				if res, err = k.Responses(ctx, &types.QueryResponsesRequest{RequestContextId: unhx(qu.ID), BatchCounter: qu.Batch}); err == nil {
+					n = len(res.Responses)
+				}
+				var lbz []byte
+				if lbz, lerr = q.legacy(types.QueryResponses, types.QueryResponsesParams{RequestContextID: unhx(qu.ID), BatchCounter: qu.Batch}); lerr == nil {
+					ln = strings.Count(string(lbz), `"provider"`)
+				}
+			}
+			if n > 0 {
+				q.fail(qu.Kind, "gRPC %s for %d-byte id %s (not a context identifier), batch %d returned %d records", qu.Kind, len(unhx(qu.ID)), qu.ID, qu.Batch, n)
+			}
+			if ln > 0 {
+				q.fail(qu.Kind, "legacy %s for %d-byte id %s (not a context identifier), batch %d returned %d records", qu.Kind, len(unhx(qu.ID)), qu.ID, qu.Batch, ln)
+			}
+			return
+		}
 		if qu.Kind == "requests_by_ctx" {
 			for _, id := range sortedKeys(s.Reqs) {
 				if bytes.HasPrefix(unhx(id), prefix) {
@@ -591,6 +624,11 @@ func GenQueries(t *rapid.T, g *GenState) []Query {
 					q.Batch = pick(t, "q_batch", []uint64{rc.BatchCounter, rc.BatchCounter + 1, 0, rc.BatchCounter - 1})
 				} else {
 					q.Batch = pick(t, "q_batch_any", []uint64{1, 0, 2})
+				}
+				if len(q.ID) == 80 && pct(t, "q_malformed_ctx", 6) {
+					// the transaction hash alone, or the identifier cut short by a byte, asked for "batch" 0..1
+					q.ID = pick(t, "q_ctx_cut", []string{q.ID[:64], q.ID[:78], q.ID[:64]})
+					q.Batch = pick(t, "q_batch_idx", []uint64{0, 1})
 				}
 			case "fees":
 				if len(s.Earned) > 0 && pct(t, "q_earning", 50) {
